@@ -3,7 +3,7 @@
    Introspect; codec theorems; coverage of the opcode space. *)
 From Coq Require Import List ZArith NArith Bool Lia ZifyN ZifyNat ZifyBool.
 From Verif Require Import Cmp VM.
-From C08 Require Import Spec Base Numeric Bitwise Splice StackOps Control Crypto Introspect.
+From C08 Require Import Spec Base Numeric Bitwise Splice StackOps Control Crypto Introspect Predicate.
 Import ListNotations.
 Open Scope N_scope.
 
@@ -165,6 +165,16 @@ Section Main.
     intros s i Hs Hc Hp Hin Hg. rewrite step_exec_instr, Hp.
     apply instr_refines; try assumption.
     intros Hk. apply (parse_op_const _ _ _ Hp Hk).
+  Qed.
+
+  (* CHECKPREDICATE: stacks and error class *)
+  Theorem step_checkpredicate_stacks : forall s i,
+    parse_op (prog s) (pc s) = inr i -> i_op i = 192%N ->
+    (forall c, 0 <= runlimit (snd (rc c))) ->
+    256 + size_operand (top0 (dstack s)) <= runlimit s ->
+    stacks_of (outcome (step cr cx rc s)) = stacks_of (spec_instr cr cx rc i s).
+  Proof.
+    intros s i Hp Hop Hrc Hg. rewrite step_exec_instr, Hp. apply checkpredicate_stacks; assumption.
   Qed.
 End Main.
 
